@@ -101,7 +101,7 @@ class StepChecker:
                         finally:
                             p[...] = saved
 
-                    status, info = compare(F, f0, an, S)
+                    status, info = compare(F, f0, an, S, retry_h=1e-6 if self.base in ("tv", "wasserstein") else None)
                     if status == "kink":
                         self.stats["kink_skipped"] += 1
                         continue
